@@ -407,6 +407,26 @@ func tallFamily(c *Ctx, prop string) {
 		runs = append(runs, run{append(append([]Op(nil), h...), Op{Kind: "undo"}), true})
 	}
 	c.Cov.Bound["two_deletion_blocks"] = fmt.Sprintf("N=%d, every disjoint non-empty S,T; %d runs", tdN, len(runs)-tdStart)
+	// multi-tree family (as in the light-client engine): 14 (thorough: 15, 28, 30) leaves in three or four trees; the
+	// second block takes from every tree independently nothing / its first leaf / its last leaf / all but the first /
+	// everything and adds 0..3 leaves; each history also undone
+	mtNs, mtKs := []int{14}, []int{0, 2, 3}
+	if c.Thorough() {
+		mtNs, mtKs = []int{14, 15, 28, 30}, []int{0, 1, 2, 3}
+		if heavyOracle {
+			mtNs = []int{14, 15}
+		}
+	}
+	mtStart := len(runs)
+	for _, N := range mtNs {
+		for _, S := range multiTreeSets(N) {
+			for _, k := range mtKs {
+				h := []Op{{Kind: "block", Adds: N}, {Kind: "block", Dels: S, Adds: k}}
+				runs = append(runs, run{hist: h}) // the run loop also evaluates h followed by its undo
+			}
+		}
+	}
+	c.Cov.Bound["multi_tree"] = fmt.Sprintf("N=%v, 5^trees deletion sets, additions %v, each undone; %d runs", mtNs, mtKs, len(runs)-mtStart)
 	// three very long chains (300 blocks; only the final state and its undo are checked): 8-bit block
 	// or deletion counters wrap here
 	for _, policy := range []string{"oldest", "newest", "middle"} {
@@ -479,6 +499,52 @@ func tallFamily(c *Ctx, prop string) {
 	c.Cov.AddEvals(evals)
 	c.Cov.AddNontrivial(done)
 	c.Cov.SetExtra("tall_family_runs", done)
+}
+
+// multiTreeSets: every deletion set that takes from each tree of an N-leaf forest independently nothing, its first
+// leaf, its last leaf, all but its first leaf, or the whole tree (the empty set excluded).
+func multiTreeSets(N int) [][]int {
+	type tr struct{ a, n int }
+	var trees []tr
+	for a, h := 0, 30; h >= 0; h-- {
+		if N&(1<<uint(h)) != 0 {
+			trees = append(trees, tr{a, 1 << uint(h)})
+			a += 1 << uint(h)
+		}
+	}
+	total := 1
+	for range trees {
+		total *= 5
+	}
+	seen := map[string]bool{}
+	var out [][]int
+	for code := 1; code < total; code++ {
+		var S []int
+		cc := code
+		for _, t := range trees {
+			ch := cc % 5
+			cc /= 5
+			switch ch {
+			case 1:
+				S = append(S, t.a)
+			case 2:
+				S = append(S, t.a+t.n-1)
+			case 3:
+				for i := 1; i < t.n; i++ {
+					S = append(S, t.a+i)
+				}
+			case 4:
+				for i := 0; i < t.n; i++ {
+					S = append(S, t.a+i)
+				}
+			}
+		}
+		if k := fmt.Sprint(S); len(S) > 0 && !seen[k] {
+			seen[k] = true
+			out = append(out, S)
+		}
+	}
+	return out
 }
 
 // gapHists: the gap family - irregular, non-aligned deletion patterns on a forest of N leaves,
